@@ -297,6 +297,12 @@ type checkRef struct {
 }
 
 func (x *Exec) compose(prelude string, path []entry, only int, timeoutMS int, refs *[]checkRef, pathNo int) string {
+	return x.composeSkip(prelude, path, only, timeoutMS, refs, pathNo, nil)
+}
+
+// composeSkip: like compose, but the goals at the given script indices are not assumed after their position (they
+// were not discharged, so nothing later on the path may lean on them).
+func (x *Exec) composeSkip(prelude string, path []entry, only int, timeoutMS int, refs *[]checkRef, pathNo int, skip map[int]bool) string {
 	var b strings.Builder
 	fmt.Fprintf(&b, "(set-option :timeout %d)\n", timeoutMS)
 	b.WriteString(prelude)
@@ -334,7 +340,7 @@ func (x *Exec) compose(prelude string, path []entry, only int, timeoutMS int, re
 			fmt.Fprintf(&b, "(set-option :timeout 1500)\n(echo \"CHK %d\")\n(check-sat)\n(set-option :timeout %d)\n", i, timeoutMS)
 		case 'c':
 			if e.inherited || (only >= 0 && only != i) {
-				if only < 0 || i < only {
+				if (only < 0 || i < only) && !skip[i] {
 					b.WriteString("(assert " + e.text + ")\n")
 				}
 				continue
@@ -545,6 +551,43 @@ func (x *Exec) solve(res *FnResult, opt Options) {
 					in.solver = sv
 					in.ms = time.Since(t1).Milliseconds()
 					in.rest = raw2
+				}
+			}
+			// an undischarged goal must not serve as a lemma for the goals after it on the same path: those are
+			// re-checked on their own without it
+			failed := map[int]bool{}
+			for _, in := range local {
+				if in.ref.kind == 'c' && in.status != "unsat" {
+					failed[in.ref.idx] = true
+				}
+			}
+			if len(failed) > 0 {
+				for i := range local {
+					in := &local[i]
+					if in.ref.kind != 'c' || in.status != "unsat" {
+						continue
+					}
+					later := false
+					for f := range failed {
+						if f < in.ref.idx {
+							later = true
+						}
+					}
+					if !later {
+						continue
+					}
+					s := x.composeSkip(prelude, x.paths[in.ref.path], in.ref.idx, opt.TimeoutMS, nil, in.ref.path, failed)
+					o2, raw2, sv, _ := raceSolvers([]string{"z3-new", "z3", "cvc5"}, s, []checkRef{in.ref}, opt.TimeoutMS+10000)
+					if c, ok := o2[in.ref.idx]; ok && c.status == "unsat" {
+						in.solver = sv
+						continue
+					} else if ok && c.status == "sat" {
+						in.status = "sat"
+						in.rest = raw2
+					} else {
+						in.status = "unknown"
+					}
+					in.solver = sv
 				}
 			}
 			mu.Lock()
